@@ -5,6 +5,7 @@ use crate::random::ResponseError;
 use apollo_compiler::executable::Field;
 use apollo_compiler::executable::Selection;
 use apollo_compiler::executable::SelectionSet;
+use apollo_compiler::executable::Type;
 use apollo_compiler::schema::ExtendedType;
 use apollo_compiler::validation::Valid;
 use apollo_compiler::ExecutableDocument;
@@ -314,7 +315,6 @@ impl<'a, 'doc, 'schema, R: RandomProvider> ResponseBuilder<'a, 'doc, 'schema, R>
         meta_field: &Node<Field>,
     ) -> Result<Value, ResponseError> {
         let has_selection_set = !meta_field.selection_set.is_empty();
-        let is_list = meta_field.ty().is_list();
 
         if has_selection_set {
             // Merge sub-selections from all occurrences of this field
@@ -326,29 +326,33 @@ impl<'a, 'doc, 'schema, R: RandomProvider> ResponseBuilder<'a, 'doc, 'schema, R>
                 ty: meta_field.selection_set.ty.clone(),
                 selections: merged_selections,
             };
-
-            if is_list {
-                self.repeated_selection_set(&full_selection_set)
-            } else {
-                self.selection_set(&full_selection_set)
-            }
-        } else if is_list {
-            self.repeated_leaf_field(meta_field.ty().inner_named_type())
+            self.value_of_type(meta_field.ty(), Some(&full_selection_set))
         } else {
-            self.leaf_field(meta_field.ty().inner_named_type())
+            self.value_of_type(meta_field.ty(), None)
         }
     }
 
-    fn repeated_selection_set(
+    /// Generate a value of the given type: one (nested) list per list level of the type,
+    /// whose innermost items are objects for `selection_set` or leaf values.
+    fn value_of_type(
         &mut self,
-        selection_set: &SelectionSet,
+        ty: &Type,
+        selection_set: Option<&SelectionSet>,
     ) -> Result<Value, ResponseError> {
-        let num_values = self.arbitrary_len()?;
-        let mut values = Vec::with_capacity(num_values);
-        for _ in 0..num_values {
-            values.push(self.selection_set(selection_set)?);
+        match ty {
+            Type::List(item_ty) | Type::NonNullList(item_ty) => {
+                let num_values = self.arbitrary_len()?;
+                let mut values = Vec::with_capacity(num_values);
+                for _ in 0..num_values {
+                    values.push(self.value_of_type(item_ty, selection_set)?);
+                }
+                Ok(Value::Array(values))
+            }
+            Type::Named(name) | Type::NonNullNamed(name) => match selection_set {
+                Some(selection_set) => self.selection_set(selection_set),
+                None => self.leaf_field(name),
+            },
         }
-        Ok(Value::Array(values))
     }
 
     /// Like [`selection_set`][Self::selection_set], but with a fixed concrete type and an
@@ -461,15 +465,6 @@ impl<'a, 'doc, 'schema, R: RandomProvider> ResponseBuilder<'a, 'doc, 'schema, R>
             ExtendedType::Scalar(scalar) => self.generators.generate_scalar(&scalar.name, self.rng),
             _ => unreachable!("A field with an empty selection set must be a scalar or enum type"),
         }
-    }
-
-    fn repeated_leaf_field(&mut self, type_name: &Name) -> Result<Value, ResponseError> {
-        let num_values = self.arbitrary_len()?;
-        let mut values = Vec::with_capacity(num_values);
-        for _ in 0..num_values {
-            values.push(self.leaf_field(type_name)?);
-        }
-        Ok(Value::Array(values))
     }
 
     fn arbitrary_len(&mut self) -> Result<usize, ResponseError> {
